@@ -110,6 +110,22 @@ pub fn handle(op: &str, req: &Value) -> Option<Value> {
     let (a1, a2) = (req["arg1"].as_u64().unwrap_or(0), req["arg2"].as_u64().unwrap_or(0));
     let mut bad: Vec<String> = vec![];
     let outcome = match req["graph_call"].as_str().unwrap_or("") {
+        "create_edge_with_property" => {
+            // a user property whose name is that of a system field; the value maps through the same node table
+            let (f, t, d) = (node_of(a1), node_of(a2), req["new_directed"].as_bool().unwrap_or(true));
+            let name = req["property"].as_str().unwrap_or("plain").to_string();
+            let v = req["value"].as_u64().unwrap_or(0);
+            let v = if name == "_from" || name == "_to" { node_of(v) } else { v };
+            let mut props = HashMap::new();
+            props.insert(name, graph_engine::PropertyValue::Int(v as i64));
+            match g.create_edge(f, t, "NEW", props, d) {
+                Ok(id) => {
+                    match g.get_edge(id) { Ok(e) if e.from == f && e.to == t && e.directed == d => {}, other => bad.push(format!("created edge ({f} -> {t}, directed {d}) reads back as {other:?}")) }
+                    format!("Ok({id})")
+                },
+                Err(e) => format!("Err({e})"),
+            }
+        },
         "create_edge" => {
             let (f, t, d) = (node_of(a1), node_of(a2), req["new_directed"].as_bool().unwrap_or(true));
             match g.create_edge(f, t, "NEW", HashMap::new(), d) {
